@@ -248,6 +248,28 @@ func (s *Server) cmdJget(msg *Message) (resp.Value, error) {
 	return NOMessage, nil
 }
 
+// jsonPathTooDeep tells whether a JSET/JDEL path has more components than a
+// document may have levels. Millions of components take the path walk of
+// sjson minutes, under the server lock.
+func jsonPathTooDeep(path string) bool {
+	if len(path) <= field.MaxJSONDepth {
+		return false
+	}
+	var n int
+	for i := 0; i < len(path); i++ {
+		switch path[i] {
+		case '\\':
+			i++
+		case '.', '|':
+			n++
+			if n >= field.MaxJSONDepth {
+				return true
+			}
+		}
+	}
+	return false
+}
+
 func (s *Server) cmdJset(msg *Message) (res resp.Value, d commandDetails, err error) {
 	// JSET key path value [RAW]
 	start := time.Now()
@@ -272,6 +294,9 @@ func (s *Server) cmdJset(msg *Message) (res resp.Value, d commandDetails, err er
 	id := msg.Args[2]
 	path := msg.Args[3]
 	val := msg.Args[4]
+	if jsonPathTooDeep(path) {
+		return NOMessage, d, errInvalidArgument("path too deep")
+	}
 	if !str && !raw {
 		switch val {
 		default:
@@ -345,6 +370,9 @@ func (s *Server) cmdJdel(msg *Message) (res resp.Value, d commandDetails, err er
 	key := msg.Args[1]
 	id := msg.Args[2]
 	path := msg.Args[3]
+	if jsonPathTooDeep(path) {
+		return NOMessage, d, errInvalidArgument("path too deep")
+	}
 
 	col, _ := s.cols.Get(key)
 	if col == nil {
